@@ -223,7 +223,8 @@ def reuse_fn(case):
     live = build(case)
     names = []
     for k, sub in enumerate(case['seq']):
-        req = None if sub is None else nat[::4][sub[0]:sub[1]].copy()
+        req = None if sub is None else (nat[::4][sub[0]:sub[1]].copy() if len(sub) == 2 else
+                                        nat[::sub[2]][sub[0]:sub[1]].copy())
         names.append('full' if sub is None else 'sub')
         try:
             g, s_, t, _ = live.model() if req is None else live.model(wngrid=req)
@@ -234,7 +235,7 @@ def reuse_fn(case):
         fresh = build(case)
         gf, sf, tf, _ = fresh.model() if req is None else fresh.model(wngrid=req)
         sig = '%s/%s/%s' % (case['kind'], case['cfg'], '>'.join(names))
-        r.eq(np.array(g, float), np.array(gf, float), 'reuse-grid', 'reuse-grid/' + sig, rtol=0)
+        r.eq(np.array(g, float), np.array(gf, float), 'reuse-grid', 'reuse-grid/' + sig, rtol=0, seq=case['seq'][:k + 1])
         if len(g) == len(gf):
             r.eq(np.array(s_, float), np.array(sf, float), 'reuse-spectrum', 'reuse/' + sig, rtol=1e-12, seq=case['seq'][:k + 1])
             r.eq(np.array(t, float), np.array(tf, float), 'reuse-tau', 'reuse-tau/' + sig, rtol=1e-12, atol=1e-300)
@@ -271,7 +272,9 @@ def explore(ctx):
                 if thorough or (j - i) in (1, 2, 3, 7, nf):
                     ocases.append({'spacing': spacing, 'ng': ng, 'TP': TP, 'req': ['foreign', [i, j]]})
     ctx.run_cases('opacity_fn', ocases, phase='opacity')
-    reqs = [None, [0, 3], [2, 6], [5, 10], [1, 3], [7, 9]]
+    # [a, b] indexes the 4-fold coarsening; [a, b, step] a step-fold coarsening: [0, 9, 4], [0, 17, 2] and
+    # [0, 5, 8] share their end points and differ in spacing only
+    reqs = [None, [0, 3], [2, 6], [5, 10], [1, 3], [7, 9], [0, 17, 2], [0, 9, 4], [0, 5, 8]]
     depth = 3 if thorough else 2
     rcases = []
     for cfg in (GRIDCFG if thorough else ['one-log', 'two-offgrid-uniform', 'two-samelen-offset-log']):
